@@ -1805,6 +1805,8 @@ def liveness_extra(ctx):
                    maxb=2, maxuser=1 if q else 2, eager=True, max_replay=150 if q else 1500, timeout=3000)
     bl, wt = completion_window_tasks(ctx)
     ctx.judge(bl + run_tasks(wt), "try-submit-jobs started at every step of submissions that end with report generation")
+    # progress also after a resubmission: the rerun part completes, nobody waits for a job that is already done
+    ctx.judge(run_tasks(small_resubmit_tasks(ctx, 160 if q else 3000)), "resubmitted 3-job submissions (progress per epoch)")
 
 
 def completion_window_tasks(ctx):
